@@ -154,4 +154,52 @@ Proof.
   intros H i j. rewrite gag_re_is_gram. apply (cotan_laplacian_is_gram T O Fth two_nz V F bases H).
 Qed.
 
+(* ------------------------------------------------------------------ the assembled gradient matrix applied to an affine function *)
+Notation mv := (mv T O).
+
+Lemma mv_flat_map {X} (blk : X -> mat T) (L : list X) y k : mv (flat_map blk L) y k = lsum (fun l => mv (blk l) y k) L.
+Proof. unfold Proofs_Dual.mv. apply (lsum_flat_map T O Rth). Qed.
+
+Lemma mv_other_row (M : mat T) c y k : rows_are T c M -> c <> k -> mv M y k = 0.
+Proof.
+  intros H Hc. unfold Proofs_Dual.mv. transitivity (lsum (fun _ : Z * Z * T => 0) M); [|apply (lsum_zero T O Rth)].
+  apply lsum_ext_in. intros [[a b] v] Hin.
+  unfold rows_are in H. rewrite Forall_forall in H. specialize (H _ Hin). cbn in H. subst a.
+  destruct (c =? k)%Z eqn:Q; [apply Z.eqb_eq in Q; contradiction | reflexivity].
+Qed.
+
+Lemma rows_apply (V : list vec) (k : Z) (f : face) (b : vec * vec) (fv : Z -> T) :
+  (mv (re_rows V (k, (f, b))) fv k, mv (im_rows V (k, (f, b))) fv k) =
+  apply_rows T O (grad_face O (grad_complex O) V (k, (f, b))) fv.
+Proof.
+  destruct f as [[p q] r], b as [bX bY].
+  unfold re_rows, im_rows, re_part, im_part, grad_face, grad_complex, apply_rows, Proofs_Dual.mv.
+  cbn [map Proofs_Dual.lsum fold_right fst snd]. rewrite !Z.eqb_refl. apply f_equal2; ring.
+Qed.
+
+(* row number k of the assembled operator G (complex gradient), applied to the vertex values of x |-> <a,x> + b0, is
+   (<a, X_k>, <a, Y_k>): the tangential gradient in the basis of face k *)
+Theorem gradient_matrix_affine (V : list vec) (F : list face) (bases : list (vec * vec)) (a : vec) (b0 : T) (fv : Z -> T)
+    (k : Z) (f : face) (b : vec * vec) :
+  In (k, (f, b)) (indexed (combine F bases)) ->
+  nondeg T O V f -> face_basis_ok T O V f b ->
+  (let '(p, q, r) := f in
+   fv p = oadd O (vdot O a (vnth O V p)) b0 /\ fv q = oadd O (vdot O a (vnth O V q)) b0 /\
+   fv r = oadd O (vdot O a (vnth O V r)) b0) ->
+  mv (re_part (gradient_complex O V F bases)) fv k = vdot O a (fst b) /\
+  mv (im_part (gradient_complex O V F bases)) fv k = vdot O a (snd b).
+Proof.
+  intros Hin Hnd Hb Hfv. unfold gradient_complex. rewrite re_part_flat_map, im_part_flat_map, !mv_flat_map.
+  set (L := indexed (combine F bases)) in *.
+  assert (S1 : forall rows : Z * (face * (vec * vec)) -> mat T, (forall it, rows_are T (fst it) (rows it)) ->
+            lsum (fun l => mv (rows l) fv k) L = mv (rows (k, (f, b))) fv k).
+  { intros rows Hr.
+    apply (lsum_single (fun l => mv (rows l) fv k) L (k, (f, b)) (indexed_from_nodup _ _) Hin).
+    intros l2 _ Hne. apply (mv_other_row _ (fst l2)); [apply Hr | exact Hne]. }
+  rewrite (S1 (re_rows V) (re_rows_rows V)), (S1 (im_rows V) (im_rows_rows V)).
+  pose proof (rows_apply V k f b fv) as E.
+  rewrite (gradient_affine_face T O Fth two_nz V k f b a b0 Hnd Hb fv Hfv) in E.
+  inversion E. split; reflexivity.
+Qed.
+
 End Gram.
